@@ -466,7 +466,7 @@ its four passes, the union arms with the bindings their failed attempts leave), 
 * `C03_unify_sound` — what an `Ok(_)` of the real unification MEANS: its two arguments are related by `Len σ'` (`Model/UnifySpec.lean`)
   in the store it leaves — equality modulo the bindings (`SEq`) weakened by one clause per lenient arm.  The clauses ARE the finding:
   `tupleSameLength` (`unify_vec` drops the errors of the members: two tuples of the same length unify, so the ARGUMENT TYPES of every
-  call with two or more arguments are unchecked — K1, K9, K11), `tuple1L/R`, `argsTuple1L/R`, `argsRecord1L/R` (a one-element pack is
+  call with two or more arguments are unchecked — K1, K9, K16), `tuple1L/R`, `argsTuple1L/R`, `argsRecord1L/R` (a one-element pack is
   its element), `argsRecordTuple` (parameters against arguments by position, keys forgotten), `unitTuple0`/`unitRecord0`,
   `anyL/R`, `failureL/R`, `boxedL/R`, `record` (fields on one side only are accepted), `unionL/R/Both`, `argsUnionL`.
   The same holds when the answer is `Err(vec![])` (an error WITHOUT any diagnostic: `unify_vec` on members of both variances).
@@ -500,7 +500,7 @@ theorem C03_unification_functions_pinned :
 
 /-! ### witnesses (kernel-evaluated; each is replayed on the real `unify_types` by `corpus/C03/unify.txt`) -/
 
-/-- K11 (root of K1 / K9): tuples of the same length unify whatever their members — `(float, string)` with `(float, float)` -/
+/-- K16 (root of K1 / K9): tuples of the same length unify whatever their members — `(float, string)` with `(float, float)` -/
 example : verdict (unify 8 8 [] (.tuple [.prim .num, .prim .str]) (.tuple [.prim .num, .prim .num])) = some (.ok .ident) ∧
     verdict (unify 8 8 [] (.prim .str) (.prim .num)) = some (.error [.mismatch]) := by decide +kernel
 
